@@ -1,4 +1,4 @@
-mod util; mod skel; mod parsers; mod corpus; mod gen; mod pegcmp;
+mod util; mod skel; mod parsers; mod corpus; mod gen; mod pegcmp; mod report; mod api; mod c01; mod c16;
 
 fn main() {
     util::silence_panics();
@@ -6,6 +6,8 @@ fn main() {
     if args.is_empty() { eprintln!("usage: svh <command> ..."); std::process::exit(2); }
     match args[0].as_str() {
         "pegcmp" => pegcmp::main(&args[1..]),
+        "c01" => c01::main(&args[1..]),
+        "c16" => c16::main(&args[1..]),
         x => { eprintln!("unknown command {}", x); std::process::exit(2); }
     }
 }
